@@ -8,7 +8,7 @@ CONSTANTS
   NFlagSets = 1
   SyncLit = FALSE
   Kinds = {"LOGIN", "SELECT", "CLOSE", "UNAUTH", "LOGOUT"}
-  Greetings = {"OK", "PREAUTH"}
+  Greetings = {"PREAUTH"}
 INIT Init
 NEXT Next
 VIEW McView
